@@ -202,20 +202,7 @@ func checkC14(p *Prog, r *Report) {
 			r.Fail(kp("SHAPE", mn+".GetSignBytes"), "anchor", mn, "GetSignBytes not found")
 			continue
 		}
-		o := NewOrigin(p, gsb)
-		ok := false
-		var got string
-		for _, ret := range returnsOf(gsb) {
-			t := o.Of(ret.Results[0])
-			got = t.String()
-			if t.IsCall("sdk/types.MustSortJSON") && len(t.Args) == 1 {
-				in := t.Args[0]
-				if in.Op == "call" && strings.HasSuffix(in.Name, "AminoCodec).MustMarshalJSON") && len(in.Args) == 2 &&
-					in.Args[0].Op == "gval" && in.Args[0].Name == mod+"/types.ModuleCdc" && in.Args[1].Op == "param" && strings.HasPrefix(in.Args[1].Name, "0:") {
-					ok = true
-				}
-			}
-		}
+		ok, got := signBytesWholeMessage(p, gsb, mod)
 		r.Check(ok, kp("SHAPE", mn+".GetSignBytes"), "sign bytes are the sorted amino JSON of the whole message, marshalled with the package's ModuleCdc (nothing else flows in: deterministic, no field projected away)", p.FnPos(gsb),
 			"MustSortJSON(ModuleCdc.MustMarshalJSON(msg))", "GetSignBytes = "+clip(got, 300))
 		// D2
@@ -715,4 +702,44 @@ func firstUnconstrainedLeaf(t types.Type, path string, depth int) string {
 		return firstUnconstrainedLeaf(x.Underlying(), path, depth)
 	}
 	return path
+}
+
+// signBytesWholeMessage: GetSignBytes ≡ sdk.MustSortJSON(<mod>/types.ModuleCdc.MustMarshalJSON(<whole receiver>)) on every return.
+func signBytesWholeMessage(p *Prog, gsb *ssa.Function, mod string) (bool, string) {
+	o := NewOrigin(p, gsb)
+	ok := false
+	got := ""
+	for _, ret := range returnsOf(gsb) {
+		t := o.Of(ret.Results[0])
+		got = t.String()
+		if t.IsCall("sdk/types.MustSortJSON") && len(t.Args) == 1 {
+			in := t.Args[0]
+			if in.Op == "call" && strings.HasSuffix(in.Name, "AminoCodec).MustMarshalJSON") && len(in.Args) == 2 &&
+				in.Args[0].Op == "gval" && in.Args[0].Name == mod+"/types.ModuleCdc" && in.Args[1].Op == "param" && strings.HasPrefix(in.Args[1].Name, "0:") {
+				ok = true
+			}
+		}
+	}
+	return ok, got
+}
+
+// checkSignBytesBindMessage (C02, C03, C06): the authorising signature covers the whole message — in the amino-JSON mode what is
+// signed is GetSignBytes, which must be the sorted amino JSON of the whole receiver for every message of the module (a projection
+// that leaves out the topic, the writer, the denom … lets a signature be replayed on another resource).
+func checkSignBytesBindMessage(p *Prog, r *Report, clause, mod string) {
+	n := 0
+	for _, m := range p.Msgs() {
+		if m.Obj().Pkg() == nil || m.Obj().Pkg().Path() != Rel(mod+"/types") {
+			continue
+		}
+		gsb := p.MethodOf(m, "GetSignBytes")
+		if gsb == nil || gsb.Blocks == nil {
+			continue
+		}
+		n++
+		ok, got := signBytesWholeMessage(p, gsb, mod)
+		r.Check(ok, "SHAPE:"+clause+":"+m.Obj().Name()+".GetSignBytes#whole-message", "the signature that authorises a message covers all of it: GetSignBytes is the sorted amino JSON of the whole message", p.FnPos(gsb),
+			"MustSortJSON(ModuleCdc.MustMarshalJSON(msg))", "GetSignBytes = "+clip(got, 260)+": a field that is not part of the signed bytes can be changed by whoever relays the transaction (another topic, writer, DID or denom) without invalidating the signature")
+	}
+	r.Floor("messages-with-sign-bytes("+mod+")", n, 3)
 }
